@@ -687,6 +687,7 @@ def part_C(ctx, corpus_nb=()):
                     continue
                 ctx.count(case, nontrivial=True)
                 inputs_same(ctx, (("data", x_in, x), ("sel_freq", sel_in, list(sel_k))), case, cls.__name__)
+                run_params_ok(ctx, alg, {"sel_freq": list(sel_k), "DF": DF_k} if cls is FDD else {"sel_freq": list(sel_k), "DF1": DF_k}, case, cls.__name__)
                 if unchanged(ctx, snap, alg.result, case, cls.__name__):
                     class_oracle(ctx, alg.result, sel_k, DF_k, case, cls.__name__, fn_on_grid=cls is FDD)
         ctx.sample({k: base[k] for k in ("nch", "N", "nxseg", "method", "sel", "DF", "modes")})
@@ -740,6 +741,7 @@ def part_C(ctx, corpus_nb=()):
                     continue
                 ctx.count(case, nontrivial=True)
                 inputs_same(ctx, (("datasets", d_in, datasets), ("sel_freq", sel_in, list(sel_k))), case, cls.__name__)
+                run_params_ok(ctx, alg, {"sel_freq": list(sel_k), "DF": DF_k} if cls is FDD_MS else {"sel_freq": list(sel_k), "DF1": DF_k}, case, cls.__name__)
                 if unchanged(ctx, snap, alg.result, case, cls.__name__):
                     class_oracle(ctx, alg.result, sel_k, DF_k, case, cls.__name__, fn_on_grid=cls is FDD_MS)
 
@@ -972,6 +974,126 @@ def part_C_forms(ctx):
         family(ms, "m", alg, FDD_MS, "FDD_MS", [float(m) for m in modes], DFv, info, ("int-list", "int32", "int64") if ctx.quick() else FORMS[1:])
 
 
+class _ScriptedPicks:
+    """head-less stand-in for pyoma2.support.sel_from_plot.SelFromPlot: the frequencies a user would click (no Tk)."""
+    picks = []
+    calls = []
+
+    def __init__(self, algo=None, freqlim=None, plot="FDD", *args, **kwargs):
+        type(self).calls.append((type(algo).__name__, freqlim, plot))
+        self.algo, self.freqlim, self.plot = algo, freqlim, plot
+        self.sel_freq = list(type(self).picks)
+        self.result = (self.sel_freq, None)
+
+
+def run_params_ok(ctx, alg, want, case, site):
+    """run_params reflect the arguments of the call just made."""
+    rp = alg.run_params
+    for name, val in want.items():
+        got = getattr(rp, name, None)
+        same = (got is not None and len(got) == len(val) and all(float(a) == float(b) for a, b in zip(got, val))) if isinstance(val, list) \
+            else (got is not None and float(got) == float(val))
+        if not same:
+            ctx.fail("oracle", "%s: run_params.%s = %r after a call made with %s = %r" % (site, name, got, name, val), case, key="C06:%s:run_params" % site)
+
+
+def part_C_plot(ctx, corpus_specs=()):
+    """the interactive path: Setup.mpe_from_plot -> FDD / FDD_MS (and the first stage of EFDD / FSDD / EFDD_MS), driven
+    head-less with scripted picks; DF well above and below the default 0.1.  Same oracle as for mpe, against the band
+    REQUESTED in the call; the result must also be the one mpe gives for the same picks and DF."""
+    import pyoma2.algorithms.fdd as alg_mod
+    import pyoma2.support.sel_from_plot as sfp_mod
+    from pyoma2.algorithms import EFDD, EFDD_MS, FDD, FDD_MS, FSDD
+    from pyoma2.setup import MultiSetup_PreGER, SingleSetup
+
+    rng = ctx.np_rng
+    fs = 32.0
+    saved = (alg_mod.SelFromPlot, sfp_mod.SelFromPlot)
+    alg_mod.SelFromPlot = _ScriptedPicks
+    sfp_mod.SelFromPlot = _ScriptedPicks
+
+    def one(spec):
+        g = np.random.default_rng(int(spec["seed"]))
+        nch, nxseg, N, DF, method = int(spec["nch"]), int(spec["nxseg"]), int(spec["N"]), float(spec["DF"]), spec["method"]
+        df = fs / nxseg
+        modes = [float(m) for m in spec["modes"]]
+        shapes = dy_c(g, (len(modes), nch + 2), 8, 8.0)
+        shapes[:, 0] = 1.0
+        x = record(g, N, fs, shapes[:, :nch], modes, 0.05)
+        picks = [float(round(m / df) * df + o * df) for m, o in zip(modes, spec["pick_offset_lines"])]   # grid lines, as the GUI returns them
+        base = dict(spec, kind="plot-path", picks=picks, fs=fs)
+        kw2 = dict(DF2=2.0, sppk=1, npmax=4)
+        jobs = [(FDD, "FDD", None), (EFDD, "EFDD", None), (FSDD, "FSDD", None)]
+        # two setups sharing the references 0, 1 (columns permuted in the second file)
+        d2 = record(g, N, fs, shapes[:, [0, 1, nch, nch + 1]], modes, 0.05)[:, [2, 0, 3, 1]]
+        multi = dict(ref_ind=[[0, 1], [1, 3]], datasets=[x[:, : max(nch, 3)] if nch >= 3 else np.hstack([x, x[:, :1] * 0.5 + 0.01 * g.standard_normal((N, 1))]), d2])
+        jobs += [(FDD_MS, "FDD_MS", multi), (EFDD_MS, "EFDD_MS", multi)]
+        for cls, name, mu in jobs:
+            site = name + ".mpe_from_plot"
+            plain = cls in (FDD, FDD_MS)
+
+            def fresh():
+                if mu is None:
+                    st = SingleSetup(x.copy(), fs=fs)
+                else:
+                    st = MultiSetup_PreGER(fs=fs, ref_ind=[list(r) for r in mu["ref_ind"]], datasets=[d.copy() for d in mu["datasets"]])
+                al = cls(name="a", nxseg=nxseg, method_SD=method)
+                st.add_algorithms(al)
+                st.run_by_name("a")
+                return st, al
+
+            st, al = fresh()
+            snap = snapshot(al.result)
+            case = dict(base, cls=name)
+            _ScriptedPicks.picks, _ScriptedPicks.calls = list(picks), []
+            try:
+                if plain:
+                    st.mpe_from_plot("a", DF=DF)
+                else:
+                    st.mpe_from_plot("a", DF1=DF, **kw2)
+            except Exception as e:  # noqa: BLE001
+                if plain:
+                    ctx.fail("oracle", "%s raises %s for picks %s with DF = %r (a valid band)" % (site, type(e).__name__, picks, DF), case, key="C06:%s:raise" % site)
+                else:
+                    ctx.not_judged += 1
+                continue
+            if not _ScriptedPicks.calls:
+                ctx.note("%s did not go through SelFromPlot" % site)
+            ctx.count(case, nontrivial=True)
+            ctx.hist("plot-path", (name, "DF %g" % DF))
+            run_params_ok(ctx, al, {"DF": DF} if plain else {"DF1": DF}, case, site)
+            if not unchanged(ctx, snap, al.result, case, site, by="mpe_from_plot"):
+                continue
+            class_oracle(ctx, al.result, picks, DF, case, site, fn_on_grid=plain)
+            # the programmatic call with the same picks and DF on a fresh object
+            st2, al2 = fresh()
+            try:
+                if plain:
+                    st2.mpe("a", sel_freq=list(picks), DF=DF)
+                else:
+                    st2.mpe("a", sel_freq=list(picks), DF1=DF, **kw2)
+            except Exception:  # noqa: BLE001
+                continue
+            F1, P1, F2, P2 = np.asarray(al.result.Fn), np.asarray(al.result.Phi), np.asarray(al2.result.Fn), np.asarray(al2.result.Phi)
+            if F1.shape != F2.shape or P1.shape != P2.shape or not np.array_equal(F1, F2) or np.abs(P1 - P2).max() > 1e-12:
+                ctx.fail("oracle", "%s with picks %s and DF = %r gives Fn %s, mpe(sel_freq = the same picks, DF = %r) gives %s"
+                         % (site, picks, DF, F1.tolist(), DF, F2.tolist()), case, key="C06:%s:differs-from-mpe" % site)
+
+    try:
+        for spec in corpus_specs:
+            one(spec)
+        for c in range(ctx.n(3, 12)):
+            fine = c % 3 == 2      # a fine grid and a band NARROWER than the default; otherwise bands much wider than it
+            nxseg = 1024 if fine else int(rng.choice([128, 256]))
+            df = fs / nxseg
+            modes = sorted(float(v) for v in rng.choice(np.arange(3, 14), size=2, replace=False))
+            offs = [int(rng.choice([-3, 3])) for _ in modes] if fine else [int(rng.choice([-3, -2, 2, 3]) * (0.25 / df)) for _ in modes]
+            one(dict(nch=int(rng.integers(2, 5)), nxseg=nxseg, N=4096 if fine else 2048, modes=modes, pick_offset_lines=offs,
+                     DF=0.05 if fine else float(rng.choice([1.0, 1.5, 2.5])), method="per" if c % 2 == 0 else "cor", seed=int(rng.integers(0, 2**31))))
+    finally:
+        alg_mod.SelFromPlot, sfp_mod.SelFromPlot = saved
+
+
 # ----------------------------------------------------------------------------------------------------------------------
 def run(ctx):
     rng = ctx.np_rng
@@ -1004,6 +1126,7 @@ def run(ctx):
     for k in range(n):
         cases.append(gen_mpe_case(rng, ctx, malformed=(k % 7 == 3)))
     corpus_nb = [c for c in cases[:ncorp] if c and c.get("kind") == "narrow-band"]
+    corpus_plot = [c for c in cases[:ncorp] if c and c.get("kind") == "plot-path"]
     ncorp = len([c for c in cases[:ncorp] if c and "freq" in c])
     cases = [c for c in cases if c and "freq" in c]
     # scale families: base table (sigma1 peaks away from the ratio peak, no ties) and the same table times 2^k
@@ -1079,4 +1202,5 @@ def run(ctx):
     part_C(ctx, corpus_nb)
     part_C_scale(ctx)
     part_C_forms(ctx)
+    part_C_plot(ctx, corpus_plot)
     ctx.extra["t_ABC"] = round(time.time() - ctx.t0, 1)
